@@ -234,6 +234,9 @@ func Flush() {
 			bw.Flush()
 			hw.Close()
 		}
+		if c.samples == nil {
+			c.samples = []interface{}{}
+		}
 		o := out{
 			Unit: c.Unit, Evaluations: c.evaluations, Nontrivial: len(c.nontrivial),
 			Classes: c.classes, Samples: c.samples, Extra: c.extra, KnownHits: c.knownHits,
